@@ -807,4 +807,47 @@ theorem pq_keys_nodup {s : St} (hwf : AList.NoDupKeys s.buf) : ((pqOfBuf s.buf).
   exact hp.nodup_iff.mpr hwf
 
 
+/-! ### reference implementation of `sendTracesEarly` -/
+
+/-- the loop of `sendTracesEarly` over the impact-sorted traces: decide, add the data size, stop
+as soon as the released size exceeds `bytes` -/
+def ejectLoop (s : St) (bytes : Nat) : List Nat → Nat → List Nat
+  | [], _ => []
+  | id :: t, sum =>
+    if bytes < sum + sizeOf s id then [id] else id :: ejectLoop s bytes t (sum + sizeOf s id)
+
+/-- reference implementation of `sendTracesEarly`: sort by impact, heaviest first, then the loop -/
+def ejectRef (s : St) (bytes : Nat) (imp : AList Nat Nat) : List Nat :=
+  ejectLoop s bytes (sortBy (fun id => -((impOf imp id : Nat) : Int)) (AList.keys s.buf)) 0
+
+theorem ejectLoop_spec (s : St) (bytes : Nat) (L : List Nat) (sum : Nat) (hsum : sum ≤ bytes) :
+    ∃ k, ejectLoop s bytes L sum = L.take k ∧ k ≤ L.length ∧
+      (∀ j, j < k → sum + sizeSum s (L.take j) ≤ bytes) ∧
+      (bytes < sum + sizeSum s (L.take k) ∨ k = L.length) := by
+  induction L generalizing sum with
+  | nil => exact ⟨0, by simp [ejectLoop], by simp, by intro j hj; omega, Or.inr rfl⟩
+  | cons id t ih =>
+    unfold ejectLoop
+    by_cases hgt : bytes < sum + sizeOf s id
+    · refine ⟨1, by simp [hgt], by simp, ?_, Or.inl ?_⟩
+      · intro j hj
+        have : j = 0 := by omega
+        subst this
+        simp [sizeSum]; omega
+      · simp [sizeSum]; exact hgt
+    · obtain ⟨k, hk1, hk2, hk3, hk4⟩ := ih (sum + sizeOf s id) (by omega)
+      refine ⟨k + 1, by simp [hgt, hk1], by simp; omega, ?_, ?_⟩
+      · intro j hj
+        cases j with
+        | zero => simp [sizeSum]; omega
+        | succ j' =>
+          have := hk3 j' (by omega)
+          simp only [List.take_succ_cons, sizeSum, List.map_cons, List.sum_cons] at this ⊢
+          omega
+      · rcases hk4 with h | h
+        · left
+          simp only [List.take_succ_cons, sizeSum, List.map_cons, List.sum_cons] at h ⊢
+          omega
+        · right; simp [h]
+
 end Refinery.Lemmas.Deadline
